@@ -65,7 +65,7 @@ def run(ctx):
                     path = os.path.join(d, "ck.pkl")
                     with open(path, "wb") as f:
                         f.write(p["bytes"])
-                    src = path
+                    src = common.as_user_path(path, nres)     # str or pathlib.Path, as users write file names
                 r2 = sr.do_run(cfg, resume_from=src, vid0=10000)
                 if route == "path":
                     shutil.rmtree(d, ignore_errors=True)
@@ -85,6 +85,21 @@ def run(ctx):
                 elif len(ctx.samples) < 4:
                     ctx.sample({"cfg": {k: cfg[k] for k in ('kind', 'ns', 'N')}, "resumed_from_iteration": p["iteration"], "route": route,
                                 "iterations": len(r.history.beta), "identical": True})
+                # a checkpoint is not used up by resuming from it: the SAME dictionary object resumed a second time (a retry after
+                # the first continuation was lost) reproduces the uninterrupted run as well
+                if route == "dict" and not diffs:
+                    r3 = sr.do_run(cfg, resume_from=src, vid0=20000)
+                    nres += 1
+                    ctx.count((cfg["seed"], p["iteration"], p["forced"], "dict-twice"), True, kind="resume/dict-second-time")
+                    rep3 = dict(rep, route="the same dict object, second resume")
+                    if r3.error is not None:
+                        ctx.violation(f"resume-raises:dict-twice:{r3.error[0]}", f"second resume from the same dictionary (iteration {p['iteration']}) raised {r3.error[:2]}", rep3)
+                    else:
+                        d3 = sr.same_outcome(r, r3)
+                        if d3:
+                            rep3["differences"] = d3
+                            ctx.violation(f"resume-differs:dict-twice:{d3[0].split(':')[0].split(' (')[0]}",
+                                          f"second resume from the same dictionary (iteration {p['iteration']}) != uninterrupted: {d3[:3]}", rep3)
     # ---- single-precision runs (not replayed through the binary64 model): resumed from a mid-run and from the last payload
     n32 = 0
     for cfg in [c for c in sb.f32_cfgs(ctx, ctx.scale(12, 60)) if c["kind"] != "emcee_smc"]:
